@@ -162,11 +162,28 @@ class Printer(PrinterBase):
 
     def make_constant(self, like, value):
         typ = self.get_type(like)
+        if isinstance(value, bool):
+            return "true" if value else "false"
+        if typ.startswith("std::complex<") and not isinstance(value, str):
+            # complex constants: construct from real and imaginary parts of the component type
+            part = typ[len("std::complex<") : -1]
+            value = complex(value)
+            return f"{typ}({self._real_constant(part, value.real)}, {self._real_constant(part, value.imag)})"
+        return self._real_constant(typ, value)
+
+    @staticmethod
+    def _real_constant(typ, value):
         s = str(value)
         if s == "inf":
             s = f"std::numeric_limits<{typ}>::infinity()"
         elif s == "-inf":
             s = f"(-std::numeric_limits<{typ}>::infinity())"
+        elif s == "nan":
+            s = f"std::numeric_limits<{typ}>::quiet_NaN()"
+        elif typ == "float":
+            # an unsuffixed C++ literal is a double: convert it to the type of the
+            # constant so that float graphs are evaluated in float
+            s = f"static_cast<float>({s})"
         return s
 
     def make_argument(self, arg):
